@@ -777,8 +777,16 @@ def sx_floor(x):
     if z3.is_int(e):
         return SNum(e)
     c = ctx()
+    # floor is a function: the same argument term gets the same integer symbol (content keys of opaque operators built
+    # from such symbols then coincide for equal content)
+    es = z3.simplify(e)
+    memo = c.__dict__.setdefault("_floor_memo", {})
+    hit = memo.get(es.get_id())
+    if hit is not None and hit[0].eq(es):
+        return SNum(hit[1])
     k = c.fresh_int("floor")
     c.assume(z3.And(z3.ToReal(k) <= e, e < z3.ToReal(k) + 1))
+    memo[es.get_id()] = (es, k)
     return SNum(k)
 
 
